@@ -59,12 +59,11 @@ class RouteDef(AbstractRouteDef):
 
     def register(self, router: UrlDispatcher) -> list[AbstractRoute]:
         if self.method in hdrs.METH_ALL:
-            reg = getattr(router, "add_" + self.method.lower())
-            return [reg(self.path, self.handler, **self.kwargs)]
-        else:
-            return [
-                router.add_route(self.method, self.path, self.handler, **self.kwargs)
-            ]
+            # The router has no shortcut for some of the methods (CONNECT, TRACE).
+            reg = getattr(router, "add_" + self.method.lower(), None)
+            if reg is not None:
+                return [reg(self.path, self.handler, **self.kwargs)]
+        return [router.add_route(self.method, self.path, self.handler, **self.kwargs)]
 
 
 @dataclasses.dataclass(frozen=True, repr=False)
